@@ -124,11 +124,20 @@ class TorchCalls(TorchOps):
             if isinstance(lst, ListV) and isinstance(lst.elem, ListV) and lst.elem.items is not None:
                 return ListV(items=None, elem=I.call_value(args[0], list(lst.elem.items), {}, node, env), kind="list", over=lst.over, order=lst.order)
             return self.unk("starmap over this sequence", node)
+        if name == "itertools.repeat" and args and not kwargs:
+            # the same object again and again; under zip() it adopts the length of its partners
+            n = args[1] if len(args) > 1 else None
+            return ListV(items=None, elem=args[0], kind="list", order=(("repeat",), "const"), length=n)
         if name == "itertools.pairwise":
             lst = self.to_list(args[0], "list", node)
             if isinstance(lst, ListV) and lst.items is not None:
                 return ListV(items=tuple(ListV(items=(a, b), kind="tuple") for a, b in zip(lst.items, lst.items[1:])))
             r = self.pairwise_abstract(lst, node) if isinstance(lst, ListV) else None
+            if r is None and isinstance(lst, ListV) and lst.elem is not None:
+                # summary: two DIFFERENT members of the sequence — the second loses every closed form it shared with the first
+                e = lst.elem
+                other = e.but(poly=None) if isinstance(e, TV) else e
+                r = ListV(items=None, elem=ListV(items=(e, other), kind="tuple"), kind="list", order=lst.order)
             return r if r is not None else self.unk("pairwise of abstract sequence", node)
         if name == "itertools.combinations":
             lst = self.to_list(args[0], "list", node)
@@ -757,9 +766,27 @@ class TorchCalls(TorchOps):
             r = owner.cls.lookup(name)
         if name in ("copy",):
             return d
+        if name == "update" and len(args) == 1 and not kwargs and not (isinstance(args[0], tuple)):
+            # d.update(other) is d |= other
+            self.ev("dict_mutation", node, how=name)
+            r = self.dict_union(owner if owner is not None else d, args[0], node)
+            if owner is not None:
+                if isinstance(r, DictV):
+                    owner.payload = r
+                    self.ev("dict_ior", node)
+                    return NONE
+                return self.unk("dict.update on this object", node)
+            if isinstance(r, DictV):
+                I.rebind(node.func.value, r, env, node)
+                return NONE
+            return self.unk("dict.update with this argument", node)
+        if name == "clear" and owner is None:
+            self.ev("dict_mutation", node, how=name)
+            I.rebind(node.func.value, DictV(items=()), env, node)
+            return NONE
         if name in ("update", "pop", "clear", "setdefault", "popitem"):
             self.ev("dict_mutation", node, how=name)
-            return NONE
+            return self.unk(f"dict.{name} (mutation not modelled)", node)
         return self.unk(f"dict.{name}", node)
 
     def optional(self, v, dflt):
@@ -787,7 +814,19 @@ class TorchCalls(TorchOps):
             if isinstance(o, SetV) and s.items is not None and len(s.items) == 0 and name == "issubset":
                 return TRUE
             return TV(kind="pybool", dtype="Bool", note=name)
-        if name in ("union", "intersection", "difference"):
+        if name in ("union", "update"):
+            # s.union(a, b, *cs): the union with every argument; a starred sequence of collections contributes its concatenation
+            acc = s
+            for a in args:
+                o = self.to_set(self.flatten_once(a[1], node), node) if isinstance(a, tuple) and a and a[0] == "*" else self.to_set(a, node)
+                if not isinstance(o, SetV):
+                    return self.unk(f"set.{name} of this argument", node)
+                acc = self.set_binop(acc, ast.BitOr(), o, node) if not (isinstance(acc, SetV) and acc.items is not None and not acc.items) else o
+            if name == "update":
+                I.rebind(node.func.value, acc, env, node)
+                return NONE
+            return acc
+        if name in ("intersection", "difference"):
             o = self.to_set(args[0], node) if args else SetV(items=())
             op = {"union": ast.BitOr(), "intersection": ast.BitAnd(), "difference": ast.Sub()}[name]
             return self.set_binop(s, op, o, node)
